@@ -14,6 +14,7 @@ from sx.terms import (
     ival,
     map_leaves,
     prune_ite,
+    ranges,
     seg_lookup,
     segments,
     upper_tables,
@@ -205,6 +206,36 @@ def model_re_sub_delete(pat, s):
                 out.append(q)
             continue
         if ctx.choose(char_pred(q, items, pat.flags)):
+            continue
+        out.append(q)
+    return mkstr(out)
+
+
+def model_translate(s, table):
+    """str.translate with a table that only deletes (every value None, as str.maketrans("", "", chars) builds):
+    a character is dropped iff its code point is a key of the table"""
+    if not isinstance(table, dict) or any(v is not None for v in table.values()) or not all(isinstance(k, int) for k in table):
+        raise Unmodelled("str.translate with a table that maps (only deletion tables are modelled)")
+    dele = ranges(table.keys())
+    s = SymStr.of(s)
+    out = []
+    for q in s.p:
+        if isinstance(q, Opt):
+            if all(c in table for lo, hi in q.cls_ranges for c in range(lo, hi + 1)):
+                continue
+            if ctx.choose(q.present) and not ctx.choose(in_ranges(q.ch, dele)):
+                out.append(q.ch)
+            continue
+        if isinstance(q, Dec):
+            if any(c in table for c in range(48, 58)):
+                raise Unmodelled("str.translate deleting digits from a decimal piece")
+            out.append(q)
+            continue
+        if isinstance(q, int):
+            if q not in table:
+                out.append(q)
+            continue
+        if ctx.choose(in_ranges(q, dele)):
             continue
         out.append(q)
     return mkstr(out)
